@@ -229,6 +229,12 @@ class MultiTrackLargeVocabularyNotelikeTokeniser:
                 tokens.append(
                     f"{TokenisationPrefixes.TIME_SIGNATURE.value}_{scaled:02}_{DEFAULT_TIME_SIGNATURE_NUMERATOR:02}")
 
+        # Advance over every bar the sequences still sound in (e.g., a note held up to or beyond the end of its bar)
+        messages_abs = sequence_bar.abs._messages
+        end_time = prv_shift + (messages_abs[-1].time if len(messages_abs) > 0 else 0)
+        while cur_time < end_time:
+            _apply_rest(cur_bar_capacity_remaining)
+
         # Close bar and handle rest buffer
         if cur_time_bar > 0 and cur_bar_capacity_remaining > 0:
             _apply_rest(cur_bar_capacity_remaining)
